@@ -299,7 +299,9 @@ def do_constant_propagation(routine, unroll_loops=False):
     if unroll_loops:
         routine.body = LoopUnrollTransformer().visit(routine.body)
 
-        # If loop unrolling is requested, do another forward propagation pass
+        # If loop unrolling is requested, do another forward propagation pass,
+        # starting again from what is known on entry to the routine
+        declarations_map = const_prop.generate_declarations_map(routine)
         routine.body = const_prop.visit(routine.body, constants_map=declarations_map)
 
     return routine
